@@ -200,8 +200,15 @@ impl Parser for Markdown {
                 | pulldown_cmark::Event::End(pulldown_cmark::TagEnd::Heading(_))
                 | pulldown_cmark::Event::End(pulldown_cmark::TagEnd::CodeBlock)
                 | pulldown_cmark::Event::End(pulldown_cmark::TagEnd::TableCell) => {
+                    // An `End` event carries the range of the whole block, so the cursor still
+                    // points at the start of the block's last run of text. The break goes behind
+                    // the tokens of that run, not in front of them.
+                    let break_at = tokens
+                        .last()
+                        .map_or(traversed_chars, |t| t.span.end.max(traversed_chars));
+
                     tokens.push(Token {
-                        span: Span::new_with_len(traversed_chars, 0),
+                        span: Span::new_with_len(break_at, 0),
                         kind: TokenKind::ParagraphBreak,
                     });
                     stack.pop();
